@@ -37,6 +37,18 @@ func vOpKey(name string, i, n int) []byte {
 	return symx.Bytes(symx.N(name, i), l)
 }
 
+// vDigit returns the i-th decimal digit (from the left, n digits) of cfg name, or -1 if the cfg is absent.
+func vDigit(name string, i, n int) int {
+	v := symx.Cfg(name, -1)
+	if v < 0 {
+		return -1
+	}
+	for j := n - 1; j > i; j-- {
+		v /= 10
+	}
+	return v % 10
+}
+
 // vVal1 returns a symbolic one-byte value.
 func vVal1(name string) []byte { return symx.Bytes(name, 1) }
 
